@@ -2,8 +2,8 @@
    [repo_cfg] is assembled from gen/SyncTab.v + gen/Consts.v (regenerated from the
    repository on every run); [C16_tables_say_what_the_proofs_need] is the obligation that
    breaks when the code stops closing a peer on error, stops re-registering channels,
-   inverts the Exiting() test, drops the negative-size refusal or starts the pump before
-   the lookupd channels exist. *)
+   inverts the Exiting() test, registers exiting objects on reconnect, drops the negative-size
+   refusal or starts the pump before the lookupd channels exist. *)
 From Coq Require Import List NArith ZArith Bool.
 From NSQV Require Import gen.Consts gen.SyncTab model.Judge model.Sync
   proofs.SyncBase proofs.SyncInv proofs.SyncLoop proofs.SyncConv proofs.SyncData proofs.SyncProps.
@@ -30,7 +30,7 @@ Print Assumptions C16_no_panic_from_any_state.
 (* the reader itself, for every limit and every byte sequence *)
 Theorem C16_reader_no_panic : forall limit buf,
   read_response_bounded (mkCfg (g_neg repo_cfg) (g_limit repo_cfg) limit (g_close repo_cfg) (g_reg_topics repo_cfg)
-     (g_reg_chans repo_cfg) (g_unreg_topic repo_cfg) (g_unreg_chan repo_cfg) (g_precreate_first repo_cfg) (g_skip_eph repo_cfg)) buf
+     (g_reg_chans repo_cfg) (g_skip_exiting repo_cfg) (g_unreg_topic repo_cfg) (g_unreg_chan repo_cfg) (g_precreate_first repo_cfg) (g_skip_eph repo_cfg)) buf
   <> RRPanic.
 Proof. exact repo_reader_no_panic. Qed.
 Print Assumptions C16_reader_no_panic.
@@ -50,22 +50,31 @@ Theorem C16_K6_witness_is_in_the_hazard_region :
 Proof. exact k6_is_hazard. Qed.
 Print Assumptions C16_K6_witness_is_in_the_hazard_region.
 
-(* a second witness (finding K6b, also reproduced on the real daemon): a reconnect while a deleted
-   topic is still in the map and its UNREGISTER has already been served *)
-Theorem C16_K6b_witness :
-  hazard_free repo_cfg (Run init) (k6b_hist ++ k6b_suf) = false /\
+(* the schedule of the repaired finding K6b/F15 (a reconnect while a deleted topic is still in the
+   map and its UNREGISTER has already been served) is now outside the hazard region and converges;
+   without connectCallback's Exiting() skip the model resurrects the topic, as the real daemon did *)
+Theorem C16_K6b_repaired :
+  hazard_free repo_cfg (Run init) (k6b_hist ++ k6b_suf) = true /\
   match run repo_cfg (Run init) (k6b_hist ++ k6b_suf) with
+  | Run s => bag s = [] /\ live_keys (objs s) = [] /\ map l_regs (links s) = [[]]
+  | Crashed => False
+  end.
+Proof. exact k6b_repaired. Qed.
+Print Assumptions C16_K6b_repaired.
+
+Theorem C16_K6b_without_the_skip :
+  match run cfg_without_exiting_skip (Run init) (k6b_hist ++ k6b_suf) with
   | Run s => bag s = [] /\ live_keys (objs s) = [] /\ map l_regs (links s) = [[KT 0%N]]
   | Crashed => False
   end.
-Proof. exact k6b_witness. Qed.
-Print Assumptions C16_K6b_witness.
+Proof. exact k6b_without_the_skip. Qed.
+Print Assumptions C16_K6b_without_the_skip.
 
 (* The strongest true statements.  (1) Every history — any creations and deletions (two-step,
    interleaved), any fault scripts, restarts, reconfigurations, any interleaving — whose loop
    schedule stays outside the decidable region [hazard] (a REGISTER served while a conflicting
-   UNREGISTER is still pending; a channel REGISTER after its deleted topic's UNREGISTER; a
-   reconnect while a deleted object is still in its map with its UNREGISTER already served),
+   UNREGISTER is still pending = K6; a channel REGISTER served after its deleted topic's
+   UNREGISTER),
    followed by a fault-free suffix that serves the pending notifications and contains two
    heartbeat ticks: every configured, healthy nsqlookupd whose connection holds no unread
    residue ends connected, with registrations for this producer equal to nsqd's live topics
